@@ -414,22 +414,43 @@ func checkValidate(c *Ctx, v *ssa.Function, rule string) {
 	})
 	c.Check(rule, "validate/first==start", v.Pos(), nonNilRet(firstNe), "first block number != start is an error")
 	c.Check(rule, "validate/last==start+limit-1", v.Pos(), nonNilRet(lastNe), "last block number != start+limit-1 is an error")
-	// linkage: bytes.Equal(blocks[i].Header.Parent, blocks[i-1].Hash()) false ⇒ error, in a loop i = 1..len
-	fHeader, fParent := w.Field("eth", "Block", "Header"), w.Field("eth", "Header", "Parent")
-	var linkFalse []Edge
+	// linkage: for every k in [0, len-2], blocks[k+1].Header.Parent is compared
+	// with the hash of blocks[k], and a mismatch makes validate return an
+	// error.  Decided on the inlined view of validate (the comparison may live
+	// in a helper) with affine index forms and the loop's index range, so that
+	// i-1/i from 1, i/i+1 from 0, range over blocks[1:] and hoisted bounds are
+	// all the same thing.
+	fHeader, fParent, fHash := w.Field("eth", "Block", "Header"), w.Field("eth", "Header", "Parent"), w.Field("eth", "Header", "Hash")
+	reg := NewRegion(v)
+	aff := &affEnv{reg: reg}
+	elemIdx := func(x ssa.Value) (ssa.Value, bool) {
+		r := reg.Resolve(stripConv(x))
+		if sl, idx, ok := elemOf(r); ok && sameVar(reg.Resolve(stripConv(sl)), blocks) {
+			return idx, true
+		}
+		return nil, false
+	}
 	var linkOK bool
-	for _, ci := range callsNamed(v, "bytes.Equal") {
-		call := ci.(*ssa.Call)
+	linkDetail := "no comparison of a block's parent hash with the hash of the block before it found"
+	for _, ci := range reg.Calls() {
+		call, isCall := ci.(*ssa.Call)
+		if !isCall || calleeName(call) != "bytes.Equal" {
+			continue
+		}
 		var parentIdx, hashIdx ssa.Value
 		for _, a := range call.Call.Args {
 			a = stripConv(a)
 			if root, chain := fieldChain(a); chainIs(chain, fHeader, fParent) {
-				if s, idx, ok := elemOf(root); ok && sameVar(s, blocks) {
+				if idx, ok := elemIdx(root); ok {
 					parentIdx = idx
+				}
+			} else if chainIs(chain, fHeader, fHash) {
+				if idx, ok := elemIdx(root); ok {
+					hashIdx = idx
 				}
 			}
 			if recv, ok := valueMethodArg(a, "eth", "Block", "Hash"); ok {
-				if s, idx, ok := elemOf(recv); ok && sameVar(s, blocks) {
+				if idx, ok := elemIdx(recv); ok {
 					hashIdx = idx
 				}
 			}
@@ -437,40 +458,112 @@ func checkValidate(c *Ctx, v *ssa.Function, rule string) {
 		if parentIdx == nil || hashIdx == nil {
 			continue
 		}
-		// hashIdx == parentIdx - 1 and parentIdx is an induction variable starting at 1 bounded by len(blocks)
-		b, ok := hashIdx.(*ssa.BinOp)
-		if !ok || b.Op != token.SUB || b.X != parentIdx {
+		pa, ha := aff.Of(parentIdx), aff.Of(hashIdx)
+		if !linEq(pa.sub(ha), konst(1)) {
+			linkDetail = fmt.Sprintf("the blocks compared are not adjacent: parent of [%s] against hash of [%s]", pa, ha)
 			continue
 		}
-		if n, ok := constInt(b.Y); !ok || n != 1 {
-			continue
+		// the loop variable inside the index expression
+		var cands []ssa.Value
+		var sub func(x ssa.Value, d int)
+		sub = func(x ssa.Value, d int) {
+			x = aff.resolve(x)
+			cands = append(cands, x)
+			if b, ok := x.(*ssa.BinOp); ok && d < 4 {
+				sub(b.X, d+1)
+				sub(b.Y, d+1)
+			}
 		}
-		phi, ok := parentIdx.(*ssa.Phi)
-		if !ok || !isInduction(phi) {
-			continue
-		}
-		startsAt1 := false
-		for _, e := range phi.Edges {
-			if n, ok := constInt(e); ok {
-				if _, isC := e.(*ssa.Const); isC && n == 1 {
-					startsAt1 = true
+		sub(hashIdx, 0)
+		sub(parentIdx, 0)
+		covered := false
+		for _, cand := range cands {
+			lo, hi, enter, header, ok := aff.loopRange(cand)
+			if !ok {
+				continue
+			}
+			k := ha.sub(aff.Of(cand))
+			if !k.isConst() {
+				continue
+			}
+			wantHi := aff.lenOf(blocks, 0).sub(konst(1))
+			if !linEq(lo.add(k), konst(0)) || !linEq(hi.add(k), wantHi) {
+				linkDetail = fmt.Sprintf("the loop compares the pairs starting at [%s] up to but excluding [%s]; every adjacent pair is [0] … [%s]", lo.add(k), hi.add(k), wantHi)
+				continue
+			}
+			// the comparison happens in every iteration
+			lifted := reg.Lift(call)
+			everyIter := lifted != nil && lifted.Parent() == header.Parent()
+			if everyIter {
+				for _, ed := range enter {
+					if hit, _ := reach(Site{ed.To, -1}, func(in ssa.Instruction) bool { return in.Block() == header }, newCuts().addInstr(lifted)); hit {
+						everyIter = false
+					}
+				}
+				for k := 1; k < len(reg.chain(call)); k++ {
+					if !passesBeforeReturn(reg.chain(call)[k]) {
+						everyIter = false
+					}
 				}
 			}
-		}
-		bounded := false
-		for _, ref := range *phi.Referrers() {
-			if cmp, ok := ref.(*ssa.BinOp); ok && cmp.Op == token.LSS && cmp.X == phi && isLenOf(cmp.Y, blocks) {
-				bounded = true
+			if !everyIter {
+				linkDetail = "an iteration of the loop can skip the comparison"
+				continue
 			}
+			covered = true
 		}
-		if startsAt1 && bounded {
+		if !covered {
+			continue
+		}
+		// a mismatch makes validate return a non-nil error: in the function of
+		// the comparison, and then at each call site up to validate
+		_, f := boolEdges(call)
+		good := len(f) > 0
+		nonNilFrom := func(edges []Edge, known map[ssa.Value]bool) bool {
+			for _, e := range edges {
+				ok := true
+				reach(Site{e.To, -1}, func(in ssa.Instruction) bool {
+					if r, isR := in.(*ssa.Return); isR {
+						vals := returnValues(r)
+						last := vals[len(vals)-1]
+						if !definitelyNonNilError(last, known) {
+							ok = false
+						}
+					}
+					return false
+				}, nil)
+				if !ok {
+					return false
+				}
+			}
+			return len(edges) > 0
+		}
+		good = good && nonNilFrom(f, nil)
+		ch := reg.chain(call)
+		for k := len(ch) - 2; k >= 0 && good; k-- {
+			hc, isCall := ch[k].(*ssa.Call)
+			if !isCall {
+				good = false
+				break
+			}
+			e, has := errResult(hc)
+			if !has || e == nil {
+				good = false
+				break
+			}
+			_, nonNil := nilTestEdges(e)
+			good = nonNilFrom(nonNil, map[ssa.Value]bool{e: true})
+		}
+		if good {
 			linkOK = true
-			_, f := boolEdges(call)
-			linkFalse = append(linkFalse, f...)
+		} else {
+			linkDetail = "a mismatching pair does not make validate return an error on every path"
 		}
 	}
-	c.Check(rule, "validate/linkage-every-adjacent-pair", v.Pos(), linkOK && nonNilRet(linkFalse),
-		"for i = 1 .. len(blocks)-1: blocks[i].Header.Parent != blocks[i-1].Hash() is an error")
+	if linkOK {
+		linkDetail = "every adjacent pair (k, k+1), k = 0 … len-2, is compared and a mismatch is an error"
+	}
+	c.Check(rule, "validate/linkage-every-adjacent-pair", v.Pos(), linkOK, linkDetail)
 	// success return only after all checks: `return nil` not reachable when any check fails is implied by nonNilRet;
 	// additionally the nil return must be dominated by the emptiness and first/last tests
 	for _, r := range returnsOf(v) {
